@@ -212,7 +212,7 @@ func listClass(links []pbLinkSpec) string {
 func TestC15(t *testing.T) {
 	r := mon.Start(t, "C15")
 	defer r.Close()
-	nb := r.Pick(64, 1200)
+	nb := r.Pick(160, 6000)
 	for b := 0; b < nb; b++ {
 		b := b
 		r.Case(fmt.Sprintf("lists/%d", b), map[string]any{"batch": b, "lists": 24}, func(c *mon.Case) {
